@@ -25,6 +25,9 @@ JudgeApi(r) ==
 Judge(r) == CASE r.kind = "c15" -> JudgeC15(r)
               [] r.kind = "badbyte" -> BadByteJudgement(r.file, r.off, r.res)
               [] r.kind = "delclose" -> DeletionJudgement(r.res)
+              [] r.kind = "hist" -> HistoryJudgement(r.fresh, r.after)
+              [] r.kind = "conc" -> ConcurrencyJudgement(r.solo, r.conc)
+              [] r.kind = "typed" -> IF r.outcome \in Outcomes THEN <<>> ELSE <<"entry point did not return Ok or a structured Error", r.outcome, r.msg>>
               [] OTHER -> JudgeApi(r)
 
 VARIABLES l, nbad
